@@ -3,7 +3,8 @@
 Layer A: every phased genotype matrix {0,1}^(ploidy x n x m) of a small scope, its unphased projection
 (built directly and through DenseUnphasedGenotyping.genotype), every summary method in every offered
 output dtype, against integer counting / Fractions (mc/ref/genostats.py).
-Layer B: every population size n = 1..N, ploidy 1..4, seven locus patterns: the exact-0/1 clauses.
+Layer B: every population size n = 1..N plus 2^k-1, 2^k, 2^k+1 up to 131 073, ploidy 1..4, nine locus patterns
+(fixed, one copy and two copies from fixation, ...): the exact-0/1 clauses.
 """
 from __future__ import annotations
 from fractions import Fraction
@@ -20,8 +21,9 @@ TECHNIQUE = ("complete small-scope input enumeration (all 0/1 allele matrices up
 RULE = ("layer A: one case = one phased matrix (ploidy,n,m) in {0,1}, evaluated as DensePhasedGenotypeMatrix, as "
         "DenseGenotypeMatrix built from the projection and via DenseUnphasedGenotyping.genotype(); all of tacount, "
         "tafreq, acount, afreq, afixed, apoly, maf, meh, gtcount, gtfreq x dtype alphabet and the three codings are "
-        "compared with the reference; layer B: one case = (ploidy, n) with 7 locus patterns (all-0, all-1, one copy "
-        "1, one copy 0, half/half, all-heterozygous, one homozygous taxon); states = matrices up to taxon order; "
+        "compared with the reference; layer B: one case = (ploidy, n) with 9 locus patterns (all-0, all-1, one copy "
+        "1, one copy 0, two copies 0, two copies 1, half/half, all-heterozygous, one homozygous taxon) for every n <= N and for "
+        "n = 2^k-1, 2^k, 2^k+1 up to 131 073; states = matrices up to taxon order; "
         "non-trivial = at least one polymorphic locus; outcomes = distinct (afreq, gtcount) results")
 ASSUME = ["alleles are coded 0/1 (the documented {0,1,2} genotype format); int8 storage",
           "meh and the {-1,0,1} / {-1,m,1} codings are compared by value for ploidy 2 only (their textbook meaning is diploid)",
@@ -57,7 +59,7 @@ def dtype_alphabet(seed):
 def sweep_dtypes(seed):
     """Layer B requests: default plus one explicit dtype per family, wide enough for counts up to 4*N."""
     v = seed % 3
-    return ([None, ("int64", numpy.int32, numpy.dtype("uint16"))[v]],
+    return ([None, ("int64", numpy.int32, numpy.dtype("uint32"))[v]],
             [None, ("float64", numpy.float32, numpy.dtype("float64"))[v]],
             [None, ("bool", numpy.int64, numpy.dtype("uint8"))[v]])
 
@@ -111,6 +113,9 @@ def shards(tier, seed):
     for k in range(K):
         # interleave so that every shard gets small and large n
         out.append(("B", tuple(n for n in range(1, N + 1) if n % K == k)))
+    big = big_sizes(tier)
+    for k in range(6):
+        out.append(("B", tuple(big[k::6])))
     return out
 
 
@@ -167,38 +172,60 @@ def ref_from_bits(bits, ploidy, n, m):
     return r
 
 
-PATTERNS = ("all0", "all1", "one1", "one0", "half", "allhet", "onehom")
+PATTERNS = ("all0", "all1", "one1", "one0", "half", "allhet", "onehom", "two0", "two1")
+
+
+def big_sizes(tier):
+    """Geometric family of large populations: 2^k - 1, 2^k, 2^k + 1 for k <= 17 (up to 131 073 taxa), beyond the
+    contiguous sweep 1..N.  Tolerance-based comparisons (isclose, allclose) on a frequency show only when one copy
+    out of >= ~10^5 differs."""
+    N = sweep_N(tier)
+    return sorted({n for k in range(1, 18) for n in (2 ** k - 1, 2 ** k, 2 ** k + 1) if n > N})
 
 
 def sweep_matrix(ploidy, n, seed):
-    """(mat, Ref) for the 7 locus patterns; the reference is derived in closed form from the pattern
-    definitions (no counting over the array)."""
+    """(mat, Ref) for the locus patterns; the reference is derived in closed form from the pattern definitions
+    (counts are known from the construction, not obtained by summing the array)."""
     tstar = (0, n - 1, n // 2)[seed % 3]
-    order = [(k + seed) % 7 for k in range(7)]
-    m = 7
+    t2 = (tstar + 1) % n
+    npat = len(PATTERNS)
+    order = [(k + seed) % npat for k in range(npat)]
+    m = npat
     mat = numpy.zeros((ploidy, n, m), dtype="int8")
     tac = numpy.zeros((n, m), dtype="int64")
+    ac = [0] * m
     for j, pk in enumerate(order):
         pat = PATTERNS[pk]
         if pat == "all1":
-            mat[:, :, j] = 1; tac[:, j] = ploidy
+            mat[:, :, j] = 1; tac[:, j] = ploidy; ac[j] = ploidy * n
         elif pat == "one1":
-            mat[0, tstar, j] = 1; tac[tstar, j] = 1
+            mat[0, tstar, j] = 1; tac[tstar, j] = 1; ac[j] = 1
         elif pat == "one0":
             mat[:, :, j] = 1; mat[ploidy - 1, tstar, j] = 0; tac[:, j] = ploidy; tac[tstar, j] = ploidy - 1
+            ac[j] = ploidy * n - 1
         elif pat == "half":
             h = n // 2
-            mat[:, :h, j] = 1; tac[:h, j] = ploidy
+            mat[:, :h, j] = 1; tac[:h, j] = ploidy; ac[j] = ploidy * h
         elif pat == "allhet":
-            mat[0, :, j] = 1; tac[:, j] = 1
+            mat[0, :, j] = 1; tac[:, j] = 1; ac[j] = n
         elif pat == "onehom":
-            mat[:, tstar, j] = 1; tac[tstar, j] = ploidy
+            mat[:, tstar, j] = 1; tac[tstar, j] = ploidy; ac[j] = ploidy
+        elif pat in ("two0", "two1"):
+            # two copies of the other allele, in two different taxa where there are two
+            cells = sorted({(ploidy - 1, tstar), (0, t2)})
+            v = 0 if pat == "two0" else 1
+            if v == 0:
+                mat[:, :, j] = 1; tac[:, j] = ploidy
+            for (ph, t) in cells:
+                mat[ph, t, j] = v
+                tac[t, j] += (1 if v else -1)
+            ac[j] = (ploidy * n - len(cells)) if v == 0 else len(cells)
     d = ploidy * n
-    ac = [int(sum(int(v) for v in tac[:, j].tolist())) for j in range(m)]      # python integers
     r = Ref()
     r.ploidy, r.n, r.m = ploidy, n, m
     r.tac = tac
-    r.taf = numpy.array([[float(Fraction(int(v), ploidy)) for v in row] for row in tac.tolist()], dtype="float64").reshape(n, m)
+    taf_table = numpy.array([float(Fraction(v, ploidy)) for v in range(ploidy + 1)], dtype="float64")
+    r.taf = taf_table[tac]
     r.taf0 = tac == 0
     r.taf1 = tac == ploidy
     r.ac = numpy.array(ac, dtype="int64")
@@ -210,24 +237,22 @@ def sweep_matrix(ploidy, n, seed):
     r.maf = numpy.array([float(min(x, 1 - x)) for x in afq], dtype="float64")
     gtc = numpy.zeros((ploidy + 1, m), dtype="int64")
     for j in range(m):
-        col = tac[:, j].tolist()
-        for k in range(ploidy + 1):
-            gtc[k, j] = col.count(k)
+        gtc[:, j] = numpy.bincount(tac[:, j], minlength=ploidy + 1)
     r.gtc = gtc
     r.gtf = numpy.array([[float(Fraction(int(v), n)) for v in row] for row in gtc.tolist()], dtype="float64").reshape(ploidy + 1, m)
     r.meh = float(Fraction(ploidy, m) * sum((x * (1 - x) for x in afq), Fraction(0)))
     r.c101 = tac - 1
-    mean101 = [Fraction(a - n, n) for a in ac]
-    r.c1m1 = numpy.array([[float(Fraction(int(v) - 1)) if int(v) != 1 else float(mean101[j]) for j, v in enumerate(row)]
-                          for row in tac.tolist()], dtype="float64").reshape(n, m)
+    mean101 = numpy.array([float(Fraction(a - n, n)) for a in ac], dtype="float64")
+    r.c1m1 = numpy.where(tac == 1, mean101[None, :], (tac - 1).astype("float64"))
     r.s1 = r.fix1 & bool(R.reciprocal_rounds(d))
     r.any_poly = not bool(r.fixed.all())
     if n <= 48:   # harness self-check of the closed forms against literal counting
         lst = mat.tolist()
         for j in range(m):
             assert ac[j] == sum(lst[ph][t][j] for ph in range(ploidy) for t in range(n)), (ploidy, n, j)
-            for t in range(n):
-                assert tac[t, j] == sum(lst[ph][t][j] for ph in range(ploidy))
+            col = [sum(lst[ph][t][j] for ph in range(ploidy)) for t in range(n)]
+            assert col == tac[:, j].tolist()
+            assert [col.count(k) for k in range(ploidy + 1)] == gtc[:, j].tolist()
     return mat, r
 
 
@@ -563,11 +588,13 @@ def run_B(ctx, ns, dts):
                     ctx.flag(f"B:rounding-n{n}" if n in (49, 98, 103, 107) else "B:rounding-n-other")
             if n == 1:
                 ctx.flag("B:n1")
+            if n >= 65535:
+                ctx.flag("B:size>=65535")
 
 
 def run_shard(spec, ctx):
     dts = dtype_alphabet(ctx.seed)
-    ctx.bounds.update({"layerA_scope(ploidy,n,m)": [list(s) for s in scope(ctx.tier)], "layerB_N": sweep_N(ctx.tier),
+    ctx.bounds.update({"layerA_scope(ploidy,n,m)": [list(s) for s in scope(ctx.tier)], "layerB_N": sweep_N(ctx.tier), "layerB_big_sizes": big_sizes(ctx.tier),
                        "layerB_ploidy": list(SWEEP_PLOIDY), "layerB_patterns": list(PATTERNS),
                        "dtypes": [[_dtname(d) for d in g] for g in dts]})
     if spec[0] == "A":
@@ -583,14 +610,16 @@ def finalize(ctx, tier, seed):
     exp = sum(1 << (p * n * m) for (p, n, m) in scope(tier))
     got = sum(v for k, v in ctx.counters.items() if k.startswith("A:matrices:"))
     assert got == exp, (got, exp)
-    assert ctx.counters.get("B:sizes", 0) == sweep_N(tier) * len(SWEEP_PLOIDY)
+    nB = sweep_N(tier) + len(big_sizes(tier))
+    assert ctx.counters.get("B:sizes", 0) == nB * len(SWEEP_PLOIDY)
+    assert "B:size>=65535" in ctx.flags
     for f in ("A:fixed-locus", "A:polymorphic-locus", "A:heterozygote", "B:n1",
               "B:rounding-n49", "B:rounding-n98", "B:rounding-n103", "B:rounding-n107"):
         assert f in ctx.flags, f
     assert ctx.counters.get("B:sizes-with-rounded-reciprocal", 0) >= 20
     assert len(ctx.outcomes) > 200, len(ctx.outcomes)
     assert ctx.counters.get("cross-checked-results", 0) > 0
-    assert ctx.evaluations == exp + sweep_N(tier) * len(SWEEP_PLOIDY)
+    assert ctx.evaluations == exp + nB * len(SWEEP_PLOIDY)
 
 
 def replay(case, ctx):
